@@ -103,6 +103,12 @@ fn enc_instr(i: &J, f: &mut wasm_encoder::Function) {
 
 /// Build the module: imports op*, cond*, probe*; one local function (index F_LOCAL) exported as "f".
 pub fn build_module(body: &[J], arity: u64, nlocals: u32) -> Vec<u8> {
+    build_module_x(body, arity, nlocals, false)
+}
+
+/// `imports_only`: no local function at all; the function under test is a further IMPORT (last, so that it has
+/// index F_LOCAL) which the caller replaces by a built function (FunctionBuilder::replace_import_in_module).
+pub fn build_module_x(body: &[J], arity: u64, nlocals: u32, imports_only: bool) -> Vec<u8> {
     use wasm_encoder::*;
     let mut m = Module::new();
     let mut types = TypeSection::new();
@@ -119,13 +125,21 @@ pub fn build_module(body: &[J], arity: u64, nlocals: u32) -> Vec<u8> {
     for k in 0..N_PROBE {
         imps.import("env", &format!("probe{}", k), EntityType::Function(0));
     }
+    if imports_only {
+        imps.import("env", "self", EntityType::Function(if arity == 0 { 0 } else { 1 }));
+    }
     m.section(&imps);
-    let mut funcs = FunctionSection::new();
-    funcs.function(if arity == 0 { 0 } else { 1 });
-    m.section(&funcs);
+    if !imports_only {
+        let mut funcs = FunctionSection::new();
+        funcs.function(if arity == 0 { 0 } else { 1 });
+        m.section(&funcs);
+    }
     let mut ex = ExportSection::new();
     ex.export("f", ExportKind::Func, F_LOCAL);
     m.section(&ex);
+    if imports_only {
+        return m.finish();
+    }
     let mut code = CodeSection::new();
     let locals = if nlocals > 0 { vec![(nlocals, ValType::I32)] } else { vec![] };
     let mut f = Function::new(locals);
@@ -445,6 +459,8 @@ pub fn run_case(case: &J, enc2: bool) -> CaseOut {
             return CaseOut { ev, bytes: None, second: None };
         }
     }
+    let via_replace = case["pre"].as_str() == Some("via_replace");
+    let input = if via_replace { build_module_x(&body, arity, nlocals, true) } else { input };
     let input = leak(input);
     let mut module = match guarded(|| Module::parse(input, false)) {
         Ok(Ok(m)) => m,
@@ -468,6 +484,31 @@ pub fn run_case(case: &J, enc2: bool) -> CaseOut {
         }
         "add_imp" => {
             let _ = guarded(|| module.add_import_func("env".to_string(), "extra".to_string(), wirm::ir::id::TypeID(0)));
+        }
+        "via_replace" => {
+            // the module has no local function: the body under test is built and replaces the last import
+            use wirm::ir::function::FunctionBuilder;
+            use wirm::module_builder::AddLocal;
+            use wirm::ir::types::DataType;
+            let r = guarded(|| {
+                let res: Vec<DataType> = if arity == 0 { vec![] } else { vec![DataType::I32] };
+                let mut fb = FunctionBuilder::new(&[], &res);
+                for _ in 0..nlocals {
+                    fb.add_local(DataType::I32);
+                }
+                let n = body.len();
+                for (k, i) in body.iter().enumerate() {
+                    if k + 1 == n {
+                        break; // the builder appends the final end
+                    }
+                    fb.inject(instr_to_op(i, 0, &|r| if r == 0 { wasmparser::BlockType::Empty } else { wasmparser::BlockType::Type(wasmparser::ValType::I32) }));
+                }
+                fb.replace_import_in_module(&mut module, wirm::ir::id::ImportsID(N_OP + N_COND + N_PROBE));
+            });
+            if let Err(m) = r {
+                ev["skip"] = json!(format!("harness: via_replace failed: {}", m));
+                return CaseOut { ev, bytes: None, second: None };
+            }
         }
         _ => {}
     }
